@@ -599,13 +599,14 @@ impl<'r> Gen<'r> {
                 inv,
             );
             if self.want() {
+                // any object kind can be the input / output of a transformer
                 let mut l = TransformerInObjects::new();
-                l.identifier_list = self.pick_some(&chars, 2);
+                l.identifier_list = if self.rng.coin() { self.pick_some(&objs, 3) } else { self.pick_some(&chars, 2) };
                 x.transformer_in_objects = Some(l);
             }
             if self.want() {
                 let mut l = TransformerOutObjects::new();
-                l.identifier_list = self.pick_some(&chars, 2);
+                l.identifier_list = if self.rng.coin() { self.pick_some(&objs, 3) } else { self.pick_some(&chars, 2) };
                 x.transformer_out_objects = Some(l);
             }
             m.transformer.push(x);
